@@ -311,6 +311,14 @@ def drive(watch, out, rng, spec, tier):
                     step("RichChkIo.decode_chk (reload)", RichChkIo().decode_chk, dec5)
         # rebuilders and lookup builders, directly
         direct_calls(step, cur, rich)
+        # the look-up helpers (name / path first, map second) on the loaded map and on the map after a sound was
+        # added to it (with a free low slot the new sound sits at the END of the list, out of slot order)
+        cw = cur
+        if wav is not None:
+            wq = step("RichWavEditor.add_wav_files (for the look-ups)", RichWavEditor().add_wav_files, ["staredit\\wav\\lookup me.wav"], find(cur, RichWavSection))
+            if wq is not None:
+                cw = step("RichChkEditor.replace_chk_section (sounds)", RichChkEditor().replace_chk_section, wq, cur) or cur
+        query_calls(step, [rich, cw], dec)
 
 
 def edit_h_unis():
@@ -318,6 +326,37 @@ def edit_h_unis():
     from richchk.model.richchk.unix.rich_unix_section import RichUnixSection
 
     return RichUnisSection, RichUnixSection
+
+
+def query_calls(step, maps, dec):
+    from richchk.io.richchk.query.chk_query_util import ChkQueryUtil
+    from richchk.io.richchk.query.mrgn_query_util import MrgnQueryUtil
+    from richchk.io.richchk.query.wav_query_util import WavQueryUtil
+    from richchk.model.chk_section_name import ChkSectionName
+    from richchk.model.richchk.mrgn.rich_mrgn_section import RichMrgnSection
+    from richchk.model.richchk.wav.rich_wav_section import RichWavSection
+
+    for k, c in enumerate(maps):
+        which = ["loaded map", "edited map"][k]
+        for s in c.chk_sections:
+            if isinstance(s, RichWavSection):
+                paths = [w.path_in_chk.value for w in s.wavs]
+                for pth in paths[:1] + paths[-1:] + ["staredit\\wav\\not there.wav"]:
+                    step("WavQueryUtil.find_only_wav_by_basename (%s)" % which, WavQueryUtil.find_only_wav_by_basename, pth.split("\\")[-1], c)
+                    step("WavQueryUtil.find_only_wav_by_exact_match (%s)" % which, WavQueryUtil.find_only_wav_by_exact_match, pth, c)
+                break
+        for s in c.chk_sections:
+            if isinstance(s, RichMrgnSection):
+                names = [l.custom_location_name.value for l in s.locations if l.custom_location_name.value][:2] + ["no such place"]
+                for nm in names:
+                    step("MrgnQueryUtil.find_location_by_name (%s)" % which, MrgnQueryUtil.find_location_by_name, nm, s)
+                    step("MrgnQueryUtil.find_location_by_name (%s, case-sensitive)" % which, MrgnQueryUtil.find_location_by_name, nm.upper(), s, False)
+                    step("MrgnQueryUtil.find_location_by_fuzzy_search (%s)" % which, MrgnQueryUtil.find_location_by_fuzzy_search, nm, s)
+                break
+        for nm in (ChkSectionName.TRIG, ChkSectionName.WAV, ChkSectionName.MRGN):
+            step("ChkQueryUtil.determine_if_rich_chk_contains_section (%s)" % which, ChkQueryUtil.determine_if_rich_chk_contains_section, nm, c)
+    for nm in (ChkSectionName.TRIG, ChkSectionName.STR):
+        step("ChkQueryUtil.determine_if_chk_contains_section", ChkQueryUtil.determine_if_chk_contains_section, nm, dec)
 
 
 def direct_calls(step, cur, rich):
